@@ -268,6 +268,61 @@ def _comp_with_helper_to_loop(M, fn, st: ast.stmt) -> Optional[List[ast.stmt]]:
     return [ast.fix_missing_locations(ast.copy_location(x, st)) for x in [init, loop] + tail]
 
 
+def _gen_helper_parts(h):
+    """a generator helper of the shape  <simple statements>; for v in IT: <statements>; yield E   (one yield, last statement of
+    the one top-level loop, nothing after the loop) -> (pre statements, the loop, the yielded expression) or None"""
+    b = _body_wo_doc(h.node)
+    if not b or not isinstance(b[-1], ast.For) or b[-1].orelse:
+        return None
+    lp = b[-1]
+    ys = [n for n in ast.walk(h.node) if isinstance(n, (ast.Yield, ast.YieldFrom))]
+    if len(ys) != 1 or not isinstance(ys[0], ast.Yield) or ys[0].value is None:
+        return None
+    last = lp.body[-1] if lp.body else None
+    if not (isinstance(last, ast.Expr) and last.value is ys[0]):
+        return None
+    if any(isinstance(n, (ast.Return, ast.FunctionDef, ast.Lambda, ast.Global, ast.Nonlocal)) for n in ast.walk(h.node) if n is not h.node):
+        return None
+    if any(isinstance(x, (ast.For, ast.While, ast.With, ast.Try)) for x in b[:-1]):
+        return None
+    if h.node.args.vararg or h.node.args.kwarg:
+        return None
+    return b[:-1], lp, ys[0].value
+
+
+def _inline_gen_loops(M, fn, stmts: List[ast.stmt], caller_locals: set, changed: List[str]) -> List[ast.stmt]:
+    """for T in self._gen(args): BODY   ->   <pre>; for v in IT: <loop statements>; T = <yielded>; BODY"""
+    out = []
+    for st in stmts:
+        for fld in ("body", "orelse", "finalbody"):
+            if isinstance(getattr(st, fld, None), list) and not isinstance(st, (ast.FunctionDef, ast.AsyncFunctionDef, ast.ClassDef)):
+                setattr(st, fld, _inline_gen_loops(M, fn, getattr(st, fld), caller_locals, changed))
+        if isinstance(st, ast.For) and not st.orelse and isinstance(st.iter, ast.Call):
+            h = _resolve_helper(M, fn, st.iter)
+            parts = _gen_helper_parts(h) if h is not None else None
+            if parts is not None:
+                pre_bind: List[ast.stmt] = []
+                mp = _bind(h, st.iter, pre_bind)
+                if mp is not None:
+                    own = _locals_of(h.node) - set(x.arg for x in h.node.args.posonlyargs + h.node.args.args + h.node.args.kwonlyargs)
+                    ren = dict(mp)
+                    for v in own:
+                        if v in caller_locals or v in mp:
+                            ren[v] = ast.Name(id=f"{v}__{h.node.name.strip('_')}{next(_counter)}", ctx=ast.Load())
+                    pre, lp, yv = parts
+                    pre2 = [_Rename(ren).visit(copy.deepcopy(x)) for x in pre]
+                    lp2 = _Rename(ren).visit(copy.deepcopy(lp))
+                    yv2 = lp2.body[-1].value.value
+                    bind = ast.fix_missing_locations(ast.copy_location(ast.Assign(targets=[copy.deepcopy(st.target)], value=yv2), st))
+                    lp2.body = lp2.body[:-1] + [bind] + st.body
+                    changed.append("gen:" + h.qual)
+                    caller_locals |= {n.id for x in pre2 + [lp2] for n in ast.walk(x) if isinstance(n, ast.Name) and isinstance(n.ctx, ast.Store)}
+                    out.extend(pre_bind + pre2 + [ast.fix_missing_locations(lp2)])
+                    continue
+        out.append(st)
+    return out
+
+
 def _inline_block(M, fn, stmts: List[ast.stmt], caller_locals: set, changed: List[str], depth: int) -> List[ast.stmt]:
     out: List[ast.stmt] = []
     expanded: List[ast.stmt] = []
@@ -1187,6 +1242,7 @@ def normalise(M, fn, subst: bool = False, guards: bool = False, keep=(), comps: 
     for _ in range(4):
         changed: List[str] = []
         locs = _locals_of(node)
+        node.body = _inline_gen_loops(M, fn, node.body, locs, changed)
         node.body = _inline_block(M, fn, node.body, locs, changed, 0)
         node.body = _unroll_block(M, fn, node.body, changed, node)
         node.body = _expand_dispatch(M, fn, node, node.body, changed)
